@@ -148,6 +148,12 @@ def common_env(b, unlocked=False):
                 pz = pv.z
             st.emit('serialize_key', kdf=d['kdf'], kdf_params=d['kdf_params'], private=pv)
             yield st, SV(BYTES, f(d['kdf'].z, sym.lift(d['kdf_params'], BYTES).z, pz))
+        elif isinstance(v, SV):
+            # any other value: canonical JSON is a deterministic, injective function of the value
+            f = UF('ser_' + v.ty.name(), v.ty, BYTES)
+            g = UF('unser_' + v.ty.name(), BYTES, v.ty)
+            st.assume(g(f(v.z)) == v.z)
+            yield st, SV(BYTES, f(v.z))
         else:
             raise sym.Unsupported(f'serialize({v!r})')
 
@@ -748,6 +754,9 @@ def make_config_setup(variant):
         elif variant == 'plain':
             b.bind('settings', mk('dict', {'hashing': mk('dict', {'name': 'sha2', 'bits': 256}), 'chunking': mk('dict', {'min_length': 8, 'max_length': 64}),
                                             'encryption': None}))
+        elif variant == 'encrypted_defaults':
+            # encryption requested with every default spelled as an EMPTY mapping: still an encrypted repository
+            b.bind('settings', mk('dict', {'encryption': mk('dict', {})}))
         elif variant.startswith('wrong_kind:'):
             section, name = variant.split(':')[1:]
             if section == 'cipher':
@@ -781,7 +790,7 @@ def make_config_post(prop, variant):
                 continue
             sec = lambda d: res.interp.deref(p.st, ops.resolve(p.st, d))
             h, c = sec(cfg['hashing']), sec(cfg['chunking'])
-            exp_h = {'none': me.get('DEFAULT_HASHER_NAME'), 'plain': 'sha2', 'encrypted': me.get('DEFAULT_HASHER_NAME')}[variant]
+            exp_h = {'none': me.get('DEFAULT_HASHER_NAME'), 'plain': 'sha2', 'encrypted': me.get('DEFAULT_HASHER_NAME'), 'encrypted_defaults': me.get('DEFAULT_HASHER_NAME')}[variant]
             exp_c = me.get('DEFAULT_CHUNKER_NAME')
             good = (isinstance(h, dict) and h.get('name') == exp_h and ('<defaults of %s>' % exp_h) in h
                     and isinstance(c, dict) and c.get('name') == exp_c and ('<defaults of %s>' % exp_c) in c)
@@ -834,7 +843,7 @@ def instantiate_config_post(prop, variant):
 
 def config_units(prop):
     return [Unit(f'{prop}.make_config[{v}]', REPO_PY, 'Repository._make_config', make_config_setup(v), make_config_post(prop, v), prop=prop)
-            for v in ('none', 'plain', 'encrypted', 'wrong_kind:hashing:aes_gcm', 'wrong_kind:chunking:sha2', 'wrong_kind:cipher:blake2b', 'wrong_kind:hashing:gclmulchunker')] + [
+            for v in ('none', 'plain', 'encrypted', 'encrypted_defaults', 'wrong_kind:hashing:aes_gcm', 'wrong_kind:chunking:sha2', 'wrong_kind:cipher:blake2b', 'wrong_kind:hashing:gclmulchunker')] + [
             Unit(f'{prop}.instantiate_config[{v}]', REPO_PY, 'Repository._instantiate_config', instantiate_config_setup(v),
                  instantiate_config_post(prop, v), prop=prop) for v in ('plain', 'encrypted')]
 
